@@ -267,6 +267,45 @@ func addOptionalDefaults(t *rapid.T, c *core.Ctx, f *model.File, p float64, o *d
 	}
 }
 
+// addNullListedEnums: enums whose members are values of ONE JSON type plus null
+// (untyped, or with the type list [T,"null"]), at a required property and as
+// array items: the listed null is a valid document value there.
+func addNullListedEnums(t *rapid.T, c *core.Ctx, f *model.File) {
+	mk := func(label string) *model.Node {
+		n := &model.Node{Kind: model.KEnum}
+		tn := ""
+		switch rapid.IntRange(0, 2).Draw(t, label+"kind") {
+		case 0:
+			tn = "string"
+			for _, s := range rapid.SliceOfNDistinct(rapid.SampledFrom([]string{"low", "high", "mid", "", "n/a"}), 1, 3, func(s string) string { return s }).Draw(t, label+"vals") {
+				n.EnumVals = append(n.EnumVals, jv.StrV(s))
+			}
+		case 1:
+			tn = "number"
+			for _, x := range rapid.SliceOfNDistinct(rapid.SampledFrom([]float64{0, 0.5, 1.25, 2, 100}), 1, 3, func(x float64) float64 { return x }).Draw(t, label+"vals") {
+				n.EnumVals = append(n.EnumVals, jv.FloatV(x))
+			}
+		default:
+			tn = "boolean"
+			n.EnumVals = append(n.EnumVals, jv.BoolV(rapid.Bool().Draw(t, label+"b")))
+		}
+		pos := rapid.IntRange(0, len(n.EnumVals)).Draw(t, label+"nullpos")
+		n.EnumVals = append(n.EnumVals[:pos:pos], append([]jv.V{jv.NullV()}, n.EnumVals[pos:]...)...)
+		if rapid.Bool().Draw(t, label+"typed") {
+			n.EnumTypes = []string{tn, "null"}
+			if rapid.Bool().Draw(t, label+"nullfirst") {
+				n.EnumTypes = []string{"null", tn}
+			}
+		}
+		return n
+	}
+	f.Root.Props = append(f.Root.Props,
+		model.Prop{Name: "znullenum", Node: mk("ne")},
+		model.Prop{Name: "znullenumlist", Node: &model.Node{Kind: model.KArray, Items: mk("nel")}})
+	f.Root.Required = append(f.Root.Required, "znullenum", "znullenumlist")
+	c.Count("shape.enum_listing_null_single_type")
+}
+
 // maybeStaleLegacy: with probability 1/den the file states its definitions under
 // both container keywords, the legacy one holding an out-of-date copy (other
 // types, no constraints) that no reference names.
